@@ -21,6 +21,8 @@ PROFILES = ("steady", "slow", "fast", "jumpy", "skew", "stall", "backjump", "wal
 
 
 class SimClock:
+    total_ns = 0  # simulated (monotonic) nanoseconds elapsed over all clocks of this process: evidence only
+
     def __init__(self, stream: Optional[Stream] = None, profile: str = "steady",
                  wall0_s: float = 1_700_000_000.0):
         self.stream = stream
@@ -42,6 +44,7 @@ class SimClock:
             self.wall_ns += int(ns)
         if mono and ns > 0:
             self.mono_ns += int(ns)
+            SimClock.total_ns += int(ns)
 
     def _tick(self, which: str) -> None:
         self.reads += 1
